@@ -105,23 +105,35 @@ type FidTok struct {
 type Ops struct {
 	Log *Log
 
-	mu         sync.Mutex
-	plans      map[planKey][]*Plan // FIFO per (conn, tag): shared-tag groups queue several
-	aplans     map[string]*Plan    // auth plans keyed by aname
-	conns      map[*go9p.Conn]int
-	nconn      int
-	nextTok    int64
-	pending    map[planKey]*go9p.SrvReq
-	destroys   map[*go9p.SrvFid]int
-	flushModes map[planKey]string
-	active     map[*go9p.SrvReq]bool     // requests currently inside a callback
-	byKey      map[planKey]*go9p.SrvReq  // the last request seen for (conn, tag)
-	flushGates map[planKey]chan struct{} // Flush(conn, tag) blocks until the channel is closed
-	Dotu       bool
+	mu           sync.Mutex
+	plans        map[planKey][]*Plan // FIFO per (conn, tag): shared-tag groups queue several
+	aplans       map[string]*Plan    // auth plans keyed by aname
+	conns        map[*go9p.Conn]int
+	nconn        int
+	nextTok      int64
+	pending      map[planKey]*go9p.SrvReq
+	destroys     map[*go9p.SrvFid]int
+	flushModes   map[planKey]string
+	active       map[*go9p.SrvReq]bool     // requests currently inside a callback
+	byKey        map[planKey]*go9p.SrvReq  // the last request seen for (conn, tag)
+	flushGates   map[planKey]chan struct{} // Flush(conn, tag) blocks until the channel is closed
+	destroyGates map[int64]chan struct{}   // FidDestroy of the fid object with that token blocks until the channel is closed
+	Dotu         bool
 }
 
 // NewPlan returns the default plan: answer success at once.
 func NewPlan() *Plan { return &Plan{WalkN: -1, ReadN: -1} }
+
+// SetDestroyGate makes FidDestroy of the fid object tok block until gate is closed (a slow FidDestroy, e.g. closing a
+// file on a slow file system).
+func (o *Ops) SetDestroyGate(tok int64, gate chan struct{}) {
+	o.mu.Lock()
+	if o.destroyGates == nil {
+		o.destroyGates = map[int64]chan struct{}{}
+	}
+	o.destroyGates[tok] = gate
+	o.mu.Unlock()
+}
 
 // SetFlushGate makes the Flush callback for (conn, tag) block until gate is closed (a slow FlushOp).
 func (o *Ops) SetFlushGate(conn int, tag uint16, gate chan struct{}) {
@@ -542,8 +554,12 @@ func (o *Ops) FidDestroy(f *go9p.SrvFid) {
 	o.mu.Lock()
 	o.destroys[f]++
 	n := o.destroys[f]
+	gate := o.destroyGates[id]
 	o.mu.Unlock()
 	o.Log.Add(Event{Kind: "destroy", Conn: conn, Fid: id, Info: fmt.Sprintf("n=%d", n)})
+	if gate != nil {
+		<-gate
+	}
 }
 
 // DoubleDestroys returns how many fid objects were reported destroyed more than once.
